@@ -232,6 +232,47 @@ def main_parallel():
     sys.exit(0)
 
 
+def main_parallel_options():
+    """options of the analysis itself: raise_errors given explicitly, N-1 power flows started from the previous results"""
+    from pandapower.contingency.contingency_parallel import run_contingency_parallel
+    fails = []
+
+    def differs(ref, res):
+        for e in ref:
+            for k in ref[e]:
+                a, b = ref[e][k], res[e].get(k)
+                if b is None:
+                    return f"{e}/{k} missing"
+                if a.dtype == object:
+                    if not all(x == y for x, y in zip(a, b)):
+                        return f"{e}/{k}"
+                elif not np.allclose(a.astype(float), b.astype(float), rtol=1e-6, atol=1e-8, equal_nan=True):
+                    return f"{e}/{k}: parallel {np.round(b.astype(float), 4)[:6]} sequential {np.round(a.astype(float), 4)[:6]}"
+        return None
+    name, net = [x for x in nets() if x[0] == "case14"][0]
+    cases = {"line": {"index": list(net.line.index.values)}}
+    pp.runpp(net)          # the net carries results: a warm start keeps (and shares) the result tables
+    for tag, kw in (("raise_errors=False", dict(raise_errors=False)),
+                    ("pf_options_nminus1={'init': 'results'} on a net with results", dict(pf_options={}, pf_options_nminus1={"init": "results"}))):
+        ref = run_contingency(copy.deepcopy(net), cases, **kw)
+        for n_procs in (1, 2, 3):
+            try:
+                res = run_contingency_parallel(copy.deepcopy(net), cases, n_procs=n_procs, **kw)
+            except Exception as e:
+                fails.append(f"case14, {tag}, n_procs={n_procs}: run_contingency_parallel raises {type(e).__name__}: {str(e)[:90]} (run_contingency "
+                             f"accepts the same call)")
+                continue
+            d = differs(ref, res)
+            if d:
+                fails.append(f"case14, {tag}, n_procs={n_procs}: {d}")
+    if fails:
+        for f in fails:
+            print("REPRODUCED:", f[:500])
+        sys.exit(1)
+    print("not reproduced")
+    sys.exit(0)
+
+
 def main_worker():
     """the parallel worker must evaluate a copy: the net it is given is unchanged afterwards (also when the case fails)"""
     from pandapower.contingency.contingency_parallel import _run_single_contingency
